@@ -7,6 +7,7 @@ import (
 	"errors"
 	"fmt"
 	"io"
+	mrand "math/rand"
 	"net"
 	"regexp"
 	"strconv"
@@ -331,6 +332,7 @@ func main() {
 			ring.Stress(r, r.CaseAlways("stress", 0), 8, 2)
 		}
 		entropyOutage(r)
+		seededPRNG(r)
 		r.Floor(int64(r.Pick(20000, 1000000)), 1000)
 	})
 }
@@ -409,4 +411,38 @@ func canonVer(v string) string {
 		return ""
 	}
 	return fmt.Sprintf("%d.%d", a, b)
+}
+
+// seededPRNG: something in the process seeds the general-purpose generator (math/rand) with a value that repeats —
+// the classic rand.Seed(time.Now().Unix()) of a dependency. Transaction ids do not come from there: the ids handed out
+// after equal seeds differ, and none repeats an earlier one.
+func seededPRNG(r *ev.Run) {
+	c := r.Case("seeded-prng", 0)
+	if c == nil {
+		return
+	}
+	env := map[string]string{"SSH_ORIGINAL_COMMAND": `{"username":"u","hostname":"h","sshClientVersion":"8.1","ifVer":7}`, "LOGNAME": "alice", "SSH_CONNECTION": "10.0.0.1 1234 10.0.0.2 22"}
+	seen := map[string]int{}
+	for round := 0; round < 40; round++ {
+		mrand.Seed(int64(4711 + round%2)) //nolint:staticcheck // the deprecated call is the point
+		r.Eval(1)
+		var p *csr.ReqParam
+		var err error
+		if r.Guard(c, "NewReqParam", round, func() {
+			p, err = csr.NewReqParam(func(k string) string { return env[k] }, func() []string { return []string{"gensign", "-c", "/usr/bin/gensign NONS Regular"} })
+		}) {
+			return
+		}
+		if err != nil || p == nil {
+			r.Violation(c, "request-refused-without-reason:seeded-prng", fmt.Sprint(err), nil)
+			return
+		}
+		if prev, dup := seen[p.TransID]; dup {
+			r.Violation(c, "transid-repeats-after-the-general-purpose-generator-was-seeded", fmt.Sprintf("math/rand was seeded with %d before requests %d and %d: both got transaction id %s", 4711+round%2, prev, round, p.TransID), nil)
+			return
+		}
+		seen[p.TransID] = round
+	}
+	r.Count("transaction ids drawn right after math/rand was seeded with a repeating value: all distinct", len(seen))
+	r.Nontrivial("seeded-prng")
 }
